@@ -70,6 +70,44 @@ func corpus() []rescorr.Case {
   container c { leaf x { type string; } container input { leaf output { type string; } } }
 }
 `),
+		// late augments across modules: the target runs through (b, sub) or ends at (c) an implied case,
+		// the grafted nodes bring shorthand choice members of their own
+		mk("late-augment-across-modules", "a.yang", `module a { namespace "urn:a"; prefix a; include asub;
+  container top { choice ch { container x { leaf own { type string; } } leaf lf { type string; } } }
+  rpc op { input { choice how { container slow { leaf t { type string; } } } } }
+  leaf start { type string; }
+}
+`, "asub.yang", `submodule asub { belongs-to a { prefix as; }
+  augment "/as:top/as:ch/as:x/as:x" { choice fromsub { leaf sy { type string; } container sz { leaf sw { type string; } } } }
+}
+`, "b.yang", `module b { namespace "urn:b"; prefix b; import a { prefix a; }
+  augment "/a:top/a:ch/a:x/a:x" { choice inner { leaf y { type string; } container z { leaf w { type string; } } } }
+  augment "/a:op/a:input/a:how/a:slow/a:slow" { choice retry { leaf once { type empty; } } }
+  leaf start { type string; }
+}
+`, "c.yang", `module c { namespace "urn:c"; prefix c; import a { prefix qa; }
+  augment "/qa:top/qa:ch/qa:lf" { choice atcase { leaf cy { type string; } case k { leaf cv { type string; } } } }
+  container own { choice ch { container x { leaf o { type string; } } } }
+  augment "/c:own/c:ch/c:x/c:x" { choice inner { leaf y { type string; } } }
+}
+`),
+		// names that exist only further down (inside cases, inside an rpc input) are no children
+		mk("descendants-are-no-children", "m.yang", `module m { namespace "urn:m"; prefix m;
+  container top {
+    leaf plain { type string; }
+    choice transport {
+      case tcp { leaf port { type uint16; } choice security { container tls { leaf cert { type string; } } } }
+      leaf serial { type string; }
+    }
+  }
+  rpc reset { input { choice how { leaf hard { type empty; } } } }
+  leaf start { type string; }
+}
+`, "n.yang", `module n { namespace "urn:n"; prefix n; import m { prefix mm; }
+  augment "/mm:top" { choice grafted { case g1 { leaf gport { type string; } } } }
+  leaf start { type string; }
+}
+`),
 		// ---- documented limits
 		mk("limit:name-with-slash", "m.yang", `module m { namespace "urn:m"; prefix pm;
   container "a/b" { leaf x { type string; } }
